@@ -281,6 +281,32 @@ fn small_typed<V: Val>(t: &mut Tracer, rng: &mut Rng, cx: &Ctx, var: Var, kind: 
     }
     let Some((h, pma)) = run_block(t, rng, cx, &spec, &vals, &hays, &extra, true) else { return };
     let methods = methods_for(cx.prop, kind);
+    // an automaton of DIFFERENT patterns (other characters, other sizes) overwritten in place by
+    // `clone_from`: it must then be the same automaton as its source
+    if rng.chance(1, 3) {
+        let alpha2 = pick_alphabet(rng, var);
+        let np2 = rng.range(1, 9);
+        let pats2 = gen_patterns(rng, &alpha2.pat, np2, 5);
+        let spec2 = BuildSpec { pats: pats2, entry: "new", ..spec.clone() };
+        let (hv, victim) = ev_build::<V>(t, &spec2, &[]);
+        if let Some(mut victim) = victim {
+            let _ = hv;
+            victim.clone_from_pma(&pma);
+            let hc = t.handle();
+            t.emit(json!({"ev": "clone", "h": h, "h2": hc, "how": "clone_from"}));
+            ev_same(t, h, &pma, hc, &victim, "clone");
+            ev_table(t, hc, &victim, false, &[]);
+            for hay in hays.iter().take(3) {
+                for m in &methods {
+                    ev_search(t, hc, &victim, m, "slice", hay, 0);
+                }
+            }
+            if matches!(cx.prop, "C09" | "C15") {
+                let (hr, pr) = ev_roundtrip(t, hc, &victim, &[3]);
+                ev_table(t, hr, &pr, false, &[]);
+            }
+        }
+    }
     if cx.prop == "C13" {
         // every search call returns: also the calls the documentation says panic at once
         let wrong: &[&str] = if kind == Kind::Std { &["lm"] } else { &["ov", "find", "nosuf"] };
@@ -796,6 +822,26 @@ fn perm_typed<V: Val>(t: &mut Tracer, rng: &mut Rng, _cx: &Ctx, var: Var, kind: 
             ev_search(t, hc, &c, m, "slice", &hay, 0);
         }
     }
+    // an automaton of other patterns overwritten in place (`clone_from`) is its source
+    {
+        let alpha2 = pick_alphabet(rng, var);
+        let np2 = rng.range(1, 12);
+        let pats2 = gen_patterns(rng, &alpha2.pat, np2, 5);
+        let spec2 = BuildSpec { pats: pats2, ..spec.clone() };
+        let vals2: Vec<V> = mk_vals(rng, spec2.pats.len(), "with_values");
+        let (_hv, victim) = ev_build(t, &spec2, &vals2);
+        if let Some(mut victim) = victim {
+            victim.clone_from_pma(&a);
+            let hc = t.handle();
+            t.emit(json!({"ev": "clone", "h": h1, "h2": hc, "how": "clone_from"}));
+            ev_same(t, h1, &a, hc, &victim, "clone");
+            let hay = Rc::new(gen_haystack(rng, var, &alpha, 20, &spec.pats));
+            for m in kind.methods() {
+                ev_search(t, h1, &a, m, "slice", &hay, 0);
+                ev_search(t, hc, &victim, m, "slice", &hay, 0);
+            }
+        }
+    }
     // purity: a clone taken before the searches equals the automaton afterwards
     let before = a.clone_pma();
     let bytes_before = a.serialize();
@@ -1041,6 +1087,61 @@ fn fam_longpat(t: &mut Tracer, rng: &mut Rng, cx: &Ctx) {
     }
 }
 
+/// A resumable (streaming) byte source: it answers None when everything that has arrived so far
+/// was handed out and yields again later.  The overlapping and no-suffix iterators keep their
+/// automaton state across such a pause, so polling them again continues the same search.
+fn fam_stream(t: &mut Tracer, rng: &mut Rng, cx: &Ctx) {
+    let var = if rng.chance(1, 2) { Var::C } else { Var::B };
+    let alpha = pick_alphabet(rng, var);
+    let npat = rng.range(1, 5);
+    let pats = gen_patterns(rng, &alpha.pat, npat, 4);
+    let spec = BuildSpec { var, kind: Kind::Std, entry: "new", via_builder: false, nfb: 16, pats };
+    let (h, pma) = ev_build::<u32>(t, &spec, &[]);
+    let Some(pma) = pma else { return };
+    let _ = cx;
+    for _ in 0..3 {
+        let hay = Rc::new(gen_haystack(rng, var, &alpha, 14, &spec.pats));
+        // arrival points on character boundaries
+        let mut cuts: Vec<usize> = vec![];
+        let mut off = 0usize;
+        let text = hay.as_slice();
+        while off < text.len() {
+            let w = match var {
+                Var::B => 1,
+                Var::C => std::str::from_utf8(&text[off..]).unwrap().chars().next().unwrap().len_utf8(),
+            };
+            off += w;
+            if rng.chance(1, 3) {
+                cuts.push(off);
+            }
+        }
+        if cuts.last() != Some(&text.len()) {
+            cuts.push(text.len());
+        }
+        for m in ["ov", "nosuf"] {
+            ev_search(t, h, &pma, m, "slice", &hay, 0); // reference
+            let id = t.iter_id();
+            t.emit(json!({"ev": "iter_new", "it": id, "h": h, "method": m, "entry": "stream", "hay": hay.as_slice()}));
+            let mut it = pma.iter(m, "stream", &hay);
+            for &avail in &cuts {
+                it.limit.as_ref().unwrap().set(avail);
+                // poll until the iterator reports that nothing more is available, and once more
+                let mut nones = 0;
+                let mut guard = 0;
+                while nones < 2 && guard < 500 {
+                    guard += 1;
+                    let (mm, pulled, probes, hops) = it.step();
+                    let res: Vec<Value> = mm.iter().map(MatchRec::json).collect();
+                    t.emit(json!({"ev": "next", "it": id, "avail": avail, "res": res, "pulled": pulled, "probes": probes, "hops": hops}));
+                    if mm.is_none() {
+                        nones += 1;
+                    }
+                }
+            }
+        }
+    }
+}
+
 /// C07: the UTF-8 decoder on branch boundaries and random scalars
 fn fam_decode(t: &mut Tracer, rng: &mut Rng, _cx: &Ctx) {
     let boundaries: [u32; 14] = [
@@ -1079,6 +1180,9 @@ fn fam_values(t: &mut Tracer, rng: &mut Rng, cx: &Ctx, i: u64) {
 pub fn family_of(prop: &str, i: u64) -> &'static str {
     if matches!(prop, "C01" | "C02" | "C03" | "C04" | "C05" | "C06" | "C08" | "C12") && i % 24 == 13 {
         return "longhay";
+    }
+    if matches!(prop, "C01" | "C05" | "C12" | "C13") && i % 12 == 7 {
+        return "stream";
     }
     match prop {
         "C01" | "C02" | "C03" | "C05" | "C08" | "C13" => match i % 12 {
@@ -1174,6 +1278,7 @@ pub fn run_scenario(t: &mut Tracer, prop: &str, thorough: bool, seed: u64, i: u6
         "shadow" => fam_shadow(t, &mut rng, &cx),
         "bigindex" => fam_bigindex(t, &mut rng, &cx),
         "wide" => fam_wide(t, &mut rng, &cx),
+        "stream" => fam_stream(t, &mut rng, &cx),
         "miri" => fam_miri(t, &mut rng, &cx),
         "longhay" => fam_longhay(t, &mut rng, &cx),
         "chain" => fam_chain(t, &mut rng, &cx),
